@@ -35,14 +35,23 @@ def rand_affine(rng, lo=-2, hi=2):
 
 
 def gen_geoms(rng, k):
+    """geometries with 1-4 primitives of mixed kinds (triangles, lines, polylist, polygons), some empty"""
     geoms = []
     for i in range(k):
         nv = rng.randint(3, 5)
         verts = [[rng.randint(-3, 3) for _ in range(3)] for _ in range(nv)]
-        ntri = rng.randint(1, 2)
-        tris = [[rng.randrange(nv) for _ in range(3)] for _ in range(ntri)]
-        nprim = rng.choice([1, 1, 2])
-        geoms.append({'id': 'geo%d' % i, 'verts': verts, 'prims': [tris] * nprim})
+        prims = []
+        for _ in range(rng.choice([1, 1, 2, 3, 4])):
+            kind = rng.choice(['triangles', 'triangles', 'lines', 'polylist', 'polygons'])
+            n = rng.choice([0, 1, 1, 2])
+            if kind == 'triangles':
+                shapes = [[rng.randrange(nv) for _ in range(3)] for _ in range(n)]
+            elif kind == 'lines':
+                shapes = [[rng.randrange(nv) for _ in range(2)] for _ in range(n)]
+            else:
+                shapes = [[rng.randrange(nv) for _ in range(rng.randint(3, 5))] for _ in range(n)]
+            prims.append({'kind': kind, 'shapes': shapes})
+        geoms.append({'id': 'geo%d' % i, 'verts': verts, 'prims': prims})
     return geoms
 
 
@@ -380,10 +389,25 @@ def source_xml(rng, s, xf=None):
             % (sid, arr, sid, len(vals) // stride, stride, param))
 
 
+def prim_xml(gid, pr):
+    inp = '<input semantic="VERTEX" source="#%s-vtx" offset="0"/>' % gid
+    kind, shapes = pr['kind'], pr['shapes']
+    flat = ' '.join(str(i) for sh in shapes for i in sh)
+    p = '<p>%s</p>' % flat if flat else '<p/>'
+    if kind in ('triangles', 'lines'):
+        return '<%s count="%d">%s%s</%s>' % (kind, len(shapes), inp, p, kind)
+    if kind == 'polylist':
+        vc = ' '.join(str(len(sh)) for sh in shapes)
+        return '<polylist count="%d">%s%s%s</polylist>' % (len(shapes), inp, '<vcount>%s</vcount>' % vc if vc else '<vcount/>', p)
+    return '<polygons count="%d">%s%s</polygons>' % (
+        len(shapes), inp, ''.join('<p>%s</p>' % ' '.join(str(i) for i in sh) for sh in shapes))
+
+
 def geom_xml(g):
     flat = ' '.join(str(x) for p in g['verts'] for x in p)
-    prims = ''.join('<triangles count="%d"><input semantic="VERTEX" source="#%s-vtx" offset="0"/><p>%s</p></triangles>'
-                    % (len(t), g['id'], ' '.join(str(i) for tri in t for i in tri)) for t in g['prims'])
+    prims = ''.join(prim_xml(g['id'], pr) if isinstance(pr, dict) else
+                    '<triangles count="%d"><input semantic="VERTEX" source="#%s-vtx" offset="0"/><p>%s</p></triangles>'
+                    % (len(pr), g['id'], ' '.join(str(i) for tri in pr for i in tri)) for pr in g['prims'])
     return ('<geometry id="%s"><mesh><source id="%s-pos"><float_array id="%s-pos-array" count="%d">%s</float_array>'
             '<technique_common><accessor source="#%s-pos-array" count="%d" stride="3"><param name="X" type="float"/>'
             '<param name="Y" type="float"/><param name="Z" type="float"/></accessor></technique_common></source>'
